@@ -252,7 +252,7 @@ func orderSensitive(info *types.Info, fd *ast.FuncDecl, rs *ast.RangeStmt) strin
 	// every appended slice must be sorted after the loop, before the function ends
 	for _, sl := range appended {
 		if !sortedAfter(info, fd, rs, sl) {
-			return "appends to " + types.ExprString(sl) + " in map order and the slice is not sorted afterwards"
+			return "appends to " + types.ExprString(sl) + " in map order and the slice is not sorted afterwards by a total order on its elements"
 		}
 	}
 	return ""
@@ -306,12 +306,48 @@ func sortedAfter(info *types.Info, fd *ast.FuncDecl, rs *ast.RangeStmt, sl ast.E
 		if f == nil || f.Pkg() == nil || f.Pkg().Path() != "sort" {
 			return true
 		}
-		if cfgx.SameExpr(info, call.Args[0], sl) {
+		if cfgx.SameExpr(info, call.Args[0], sl) && totalOrderSort(info, f, call) {
 			found = true
 		}
 		return true
 	})
 	return found
+}
+
+// totalOrderSort: the sort call leaves no two distinct elements in their input (map) order.
+// sort.Strings/Ints/Float64s and sort.Sort/Stable (an interface implemented elsewhere) are
+// taken as such; sort.Slice and its relatives only when the less function compares the two
+// elements themselves - `s[i] < s[j]`, possibly through one field - and not a value derived
+// from them by a call (`strings.ToLower(s[i])`, `len(s[i])`): elements that such a key maps
+// to one value keep the order the map iteration gave them.
+func totalOrderSort(info *types.Info, f *types.Func, call *ast.CallExpr) bool {
+	if !strings.HasPrefix(f.Name(), "Slice") {
+		return true
+	}
+	if len(call.Args) != 2 {
+		return false
+	}
+	lit, ok := ast.Unparen(call.Args[1]).(*ast.FuncLit)
+	if !ok || len(lit.Body.List) != 1 {
+		return false
+	}
+	ret, ok := lit.Body.List[0].(*ast.ReturnStmt)
+	if !ok || len(ret.Results) != 1 {
+		return false
+	}
+	be, ok := ast.Unparen(ret.Results[0]).(*ast.BinaryExpr)
+	if !ok || (be.Op != token.LSS && be.Op != token.GTR) {
+		return false
+	}
+	element := func(e ast.Expr) bool {
+		e = ast.Unparen(e)
+		if sel, ok := e.(*ast.SelectorExpr); ok {
+			e = ast.Unparen(sel.X)
+		}
+		ix, ok := e.(*ast.IndexExpr)
+		return ok && cfgx.SameExpr(info, ix.X, call.Args[0])
+	}
+	return element(be.X) && element(be.Y)
 }
 
 // ---------------------------------------------------------------- D2 nondeterministic sources
